@@ -176,6 +176,10 @@ def sp_arg(sp, form):
     o = sorted(sp)
     if form == "str":
         return "".join("1" if i in o else "0" for i in range(o[-1] + 1))
+    if form == "str_star":  # the documentation writes gaps as '*'
+        return "".join("1" if i in o else "*" for i in range(o[-1] + 1))
+    if form == "str_mixed":  # any character but '1' is a gap, trailing gaps do not extend the span
+        return "".join("1" if i in o else "-x 2"[i % 4] for i in range(o[-1] + 1)) + "-0"
     if form == "list":
         return list(o)
     if form == "rlist":
@@ -1297,7 +1301,10 @@ def sim_ops(ctx, env, tk, table, obs, q, rule, ss, mkcase):
             wopt = [(QID, p, a, b) for p, a, b in opt]
             ncol = 4
         try:
-            m = table.match(q.seq, similarity_rule=rule) if op == "match" else table.match_table(q.table, similarity_rule=rule)
+            if op == "match":
+                m = table.match(q.seq, similarity_rule=rule, **({"ignore_mask": q.marr} if q.marr is not None else {}))
+            else:
+                m = table.match_table(q.table, similarity_rule=rule)
         except Exception as e:  # noqa: BLE001
             if op == "match" and q.short:
                 ctx.count("either_short_query")
@@ -1326,6 +1333,9 @@ def run_sim(shard, ctx):
     env = Env(g["n"], ctx.seed, g["k"], sp)
     S = [s for s in all_seqs(g["n"], g["len"][0], g["len"][1]) if env.codes_ok(ctx, s)]
     qs = [prep_query(env, tk, s, ()) for s in S]
+    lmax = g["len"][1]
+    # two features in one call: similarity rule AND ignore mask (separate copy of the mask test in the rule branch)
+    qs_masked = [prep_query(env, tk, s, (b,)) for s in S if len(s) == lmax for b in range(lmax)]
     _, M = make_rule(env, mname, ext, 0)
     base = {"kind": "sim", "g": shard["g"], "n": g["n"], "k": g["k"], "sp": sp, "tk": tk, "matrix": mname, "ext": ext}
     tabs = []
@@ -1341,8 +1351,8 @@ def run_sim(shard, ctx):
         ss = sim_sets(M, g["n"], g["k"], thr)
         for rc, t, obs in tabs:
             pre = json.dumps(dict(base, ref=list(rc), rmask=[], thr=thr))[:-1]
-            for q in qs:
-                js = pre + ',"q":%s,"qmask":[]}' % (list(q.codes),)
+            for q in qs + (qs_masked if len(rc) == lmax else []):
+                js = pre + ',"q":%s,"qmask":%s}' % (list(q.codes), list(q.mask))
                 if not ctx.journal(js):
                     continue
                 ok = sim_ops(ctx, env, tk, t, obs, q, rule, ss, lambda: json.loads(js))
@@ -1359,7 +1369,7 @@ def replay_sim(case, ctx):
         return
     rule, M = make_rule(env, case["matrix"], case["ext"], case["thr"])
     ss = sim_sets(M, case["n"], case["k"], case["thr"])
-    q = prep_query(env, tk, tuple(case["q"]), ())
+    q = prep_query(env, tk, tuple(case["q"]), tuple(case.get("qmask", ())))
     sim_ops(ctx, env, tk, t, obs, q, rule, ss, lambda: case)
 
 
@@ -1427,6 +1437,7 @@ REPLAYERS.update({"sim": replay_sim, "simk": replay_simk})
 # selectors
 # ---------------------------------------------------------------------------
 PERMS = ("none", "freq_rev", "freq_ties", "freq_cyc", "freq_table", "random", "neg")
+INT64_MAX, INT64_MIN = 2**63 - 1, -(2**63)
 
 
 def freq_seq(n, k):
@@ -1439,6 +1450,9 @@ def perm_order(name, n, k, N):
         return list(range(N))
     if name == "neg":
         return [-c for c in range(N)]
+    if name == "extreme":  # injective keys that contain both ends of the documented int64 range (the values RandomPermutation.min/max name)
+        return [[5, INT64_MAX, INT64_MIN, INT64_MAX - 1][c % 4] + (0 if c < 4 else (c // 4) * 7 * (1 if c % 4 == 0 else 0)) for c in range(N)] if N <= 4 else \
+            [INT64_MAX if c == 1 else (INT64_MIN if c == 2 else 10 * c) for c in range(N)]
     if name == "random":
         out = []
         for c in range(N):
@@ -1469,7 +1483,7 @@ def perm_range(name, N):
         return 0, N - 1
     if name == "neg":
         return -(N - 1), 0
-    if name == "random":
+    if name in ("random", "extreme"):
         return -(2**63), 2**63 - 1
     return 0, N - 1
 
@@ -1495,6 +1509,22 @@ def perm_impl(name, kalph, n, k, N, pal):
         return Neg()
     if name == "random":
         return align.RandomPermutation()
+    if name == "extreme":
+        table = np.array(perm_order("extreme", n, k, N), dtype=np.int64)
+
+        class Extreme(align.Permutation):
+            @property
+            def min(self):
+                return INT64_MIN
+
+            @property
+            def max(self):
+                return INT64_MAX
+
+            def permute(self, kmers):
+                return table[np.asarray(kmers)]
+
+        return Extreme()
     if name == "freq_rev":
         return align.FrequencyPermutation(kalph, np.array([N - 1 - c for c in range(N)], dtype=np.int64))
     if name == "freq_ties":
@@ -1563,7 +1593,7 @@ def sel_cfg(tier):
             {"n": 4, "k": 2, "models": [None], "L": 5 if q else 7, "perms": ("none", "freq_cyc", "random", "neg") if q else PERMS},
         ],
         "windows": [2, 3, 4, 5] if q else [2, 3, 4, 5, 6, 7],
-        "minarr": {"N": 4, "len": 7 if q else 9, "perms": ("none", "neg", "random", "freq_ties")},
+        "minarr": {"N": 4, "len": 7 if q else 9, "perms": ("none", "neg", "random", "freq_ties", "extreme")},
         "sync": [
             {"n": 2, "ks": [(3, 2), (4, 2), (4, 3)] if q else [(3, 2), (4, 2), (4, 3), (5, 2), (5, 3), (5, 4), (6, 3)],
              "L": 8 if q else 10},
@@ -1571,6 +1601,7 @@ def sel_cfg(tier):
             {"n": 4, "ks": [(3, 2)], "L": 5 if q else 6},
         ],
         "sync_perms": ("none", "freq_cyc", "random", "neg"),
+        "sync_extreme": {"n": 2, "ks": [(4, 2)], "L": 8 if q else 10},
         "mincode": [
             {"n": 2, "k": 2, "models": [None, [0, 2]], "L": 8 if q else 10},
             {"n": 2, "k": 3, "models": [None], "L": 8 if q else 10},
@@ -1595,6 +1626,8 @@ def sel_shards(tier):
         for k, s in g["ks"]:
             for perm in c["sync_perms"]:
                 out.append({"kind": "sync", "n": g["n"], "k": k, "s": s, "perm": perm, "L": g["L"]})
+    for k, s in c["sync_extreme"]["ks"]:
+        out.append({"kind": "sync", "n": 2, "k": k, "s": s, "perm": "extreme", "L": c["sync_extreme"]["L"]})
     for g in c["mincode"]:
         for sp in g["models"]:
             out.append({"kind": "mincode", "n": g["n"], "k": g["k"], "sp": sp, "L": g["L"]})
@@ -1905,7 +1938,7 @@ REPLAYERS.update({"min": replay_min, "minarr": replay_minarr, "sync": replay_syn
 # ---------------------------------------------------------------------------
 # KmerAlphabet.create_kmers directly: spacing argument forms x code dtypes
 # ---------------------------------------------------------------------------
-FORMS = ("str", "list", "rlist", "array", "tuple")
+FORMS = ("str", "str_star", "str_mixed", "list", "rlist", "array", "tuple")
 DTYPES = ("uint8", "uint16", "uint32", "uint64")
 
 
@@ -2442,6 +2475,12 @@ def alias_scenarios(tier):
         for perm in ("none", "freq_cyc", "random"):
             out.append({"sc": "call_select_from_kmers", "selector": name, "perm": perm})
             out.append({"sc": "call_select", "selector": name, "perm": perm})
+        # degenerate: every k-mer is selected (the result could be the argument itself)
+        out.append({"sc": "call_select_from_kmers", "selector": name, "perm": "none", "all": 1})
+    for tk in ("K", "B3"):
+        out.append({"sc": "from_tables", "tk": tk, "k": 2, "sp": None, "order": "sorted", "form": "int64", "single": 1, "args": ["tables", "outputs"]})
+    for perm in ("freq_identity",):
+        out.append({"sc": "call_permute", "perm": perm})
     for name in ("SyncmerSelector", "CachedSyncmerSelector"):
         for form in ("int64", "int32", "list"):
             out.append({"sc": "selector_offset", "selector": name, "form": form})
@@ -2530,7 +2569,8 @@ def alias_build(desc, ae, pal):
     if sc == "from_tables":
         def fresh():
             ka = align.KmerAlphabet(alph, k, spacing())
-            return {"tables": [T.from_kmers(ka, [np.array(x, dtype=np.int64)], ref_ids=[j + 3], **kw) for j, x in enumerate(kmodel)]}
+            tabs = [T.from_kmers(ka, [np.array(x, dtype=np.int64)], ref_ids=[j + 3], **kw) for j, x in enumerate(kmodel)]
+            return {"tables": tabs[:1] if desc.get("single") else tabs}
 
         return (cname + ".from_tables", fresh, lambda a: T.from_tables(a["tables"]), lambda t: snap_table(t, ae), table_outputs)
 
@@ -2564,15 +2604,20 @@ def alias_build(desc, ae, pal):
     km3 = model_kmers(long_seq, 2, [0, 1, 2])
 
     def selector(name, perm, offset=(0, -1)):
+        every = desc.get("all")
         if name == "MinimizerSelector":
-            return align.MinimizerSelector(ka3, 3, perm_impl(perm, ka3, 2, 3, 8, pal))
+            return align.MinimizerSelector(ka3, 3 if not every else 2, perm_impl(perm, ka3, 2, 3, 8, pal))
         if name == "MincodeSelector":
-            return align.MincodeSelector(ka3, 2, perm_impl(perm, ka3, 2, 3, 8, pal))
+            return align.MincodeSelector(ka3, 2 if not every else 1, perm_impl(perm, ka3, 2, 3, 8, pal))
         cls = align.SyncmerSelector if name == "SyncmerSelector" else align.CachedSyncmerSelector
-        return cls(alph, 3, 2, perm_impl(perm, ka2, 2, 2, 4, pal), offset=offset)
+        return cls(alph, 3, 2, perm_impl(perm, ka2, 2, 2, 4, pal), offset=offset if not every else (0, 1))
 
     if sc == "call_select_from_kmers":
         sel = selector(desc["selector"], desc["perm"])
+        if desc.get("all") and desc["selector"] == "MinimizerSelector":
+            # strictly descending codes: every window has a new minimizer, i.e. all k-mers but the first are selected
+            return (desc["selector"] + ".select_from_kmers", lambda: {"kmers": np.array([7, 6, 5, 4, 3, 2, 1, 0], dtype=np.int64)},
+                    lambda a: sel.select_from_kmers(a["kmers"]), _tolist, None)
         return (desc["selector"] + ".select_from_kmers", lambda: {"kmers": np.array(km3, dtype=np.int64)},
                 lambda a: sel.select_from_kmers(a["kmers"]), _tolist, None)
     if sc == "call_select":
@@ -2599,7 +2644,8 @@ def alias_build(desc, ae, pal):
             return [p.permute(np.arange(8)).tolist(), int(p.min), int(p.max)]
         return ("FrequencyPermutation.__init__", fresh, lambda a: align.FrequencyPermutation(ka3, a["counts"]), obs, None)
     if sc == "call_permute":
-        p = perm_impl(desc["perm"], ka3, 2, 3, 8, pal)
+        p = (align.FrequencyPermutation(ka3, np.arange(8)) if desc["perm"] == "freq_identity"  # the rank table is the identity
+             else perm_impl(desc["perm"], ka3, 2, 3, 8, pal))
         return (type(p).__name__ + ".permute", lambda: {"kmers": np.array(km3, dtype=np.int64)}, lambda a: p.permute(a["kmers"]),
                 _tolist, None)
     if sc == "ScoreThresholdRule":
@@ -3220,7 +3266,8 @@ REPLAYERS["reuse"] = replay_reuse
 # ---------------------------------------------------------------------------
 # flavour: the same values in another array flavour give the same result (audit dimensions 4, 5)
 # ---------------------------------------------------------------------------
-LAYOUTS = ("strided", "negative_stride", "readonly", "column_view", "subclass", "fortran_2d", "strided_rows")
+LAYOUTS = ("strided", "negative_stride", "readonly", "column_view", "subclass", "fortran_2d", "strided_rows",
+           "strided_readonly", "negative_stride_readonly_subclass")
 OTHER_TYPES = ("int8", "int16", "int32", "int64", "uint8", "uint16", "uint32", "uint64", "intp", "list", "tuple", "range")
 
 
@@ -3241,6 +3288,14 @@ def flavoured(base, flav):
         if b.ndim != 1:
             return None
         return b[::-1].copy()[::-1]
+    if flav in ("strided_readonly", "negative_stride_readonly_subclass"):
+        a = flavoured(b, "strided" if flav == "strided_readonly" else "negative_stride")
+        if a is None:
+            return None
+        if flav != "strided_readonly":
+            a = a.view(_Sub)
+        a.setflags(write=False)
+        return a
     if flav == "readonly":
         a = b.copy()
         a.setflags(write=False)
@@ -3270,7 +3325,7 @@ def flavoured(base, flav):
     dt = np.dtype(flav)
     if b.dtype == dt:
         return None
-    if b.size and (b.min() < np.iinfo(dt).min or b.max() > np.iinfo(dt).max):
+    if b.size and (int(b.min()) < int(np.iinfo(dt).min) or int(b.max()) > int(np.iinfo(dt).max)):
         return None
     return b.astype(dt)
 
@@ -3316,6 +3371,16 @@ def flavour_sites(pal):
         if tk == "K":
             p2 = np.array([[4, 0], [4, 3], [9, 1]], dtype=np.uint32)
             out.append((cn + ".from_positions", "position_array", p2, anyint, lambda a, T=T: _entries(T.from_positions(ka2, {1: a, 2: p2[:1]}), 4)))
+    # ignore masks: layout x {continuous, spaced} (the mask is converted before the spaced / continuous k-mer mask is derived)
+    mbits = np.array([i in (1, 6) for i in range(len(codes))])
+    sq = seq_with(codes.copy())
+    for tk in ("K", "B3"):
+        T, kw, cn = table_class(tk), nb_kw(tk), cls_name(tk)
+        for nm, spkw in (("continuous", {}), ("spaced", {"spacing": "1101"})):
+            t_m = T.from_sequences(2 if not spkw else 3, [sq], **spkw, **kw)
+            out.append((cn + ".from_sequences", "ignore_mask+" + nm, mbits, (),
+                        lambda a, T=T, kw=kw, spkw=spkw: _entries(T.from_sequences(2 if not spkw else 3, [sq], ignore_masks=[a], **spkw, **kw), 8 if spkw else 4)))
+            out.append((cn + ".match", "ignore_mask+" + nm, mbits, (), lambda a, t=t_m: t.match(sq, ignore_mask=a)))
     km3 = np.array(model_kmers(tuple(codes.tolist()), 2, [0, 1, 2]), dtype=np.int64)
     sels = {"MinimizerSelector": align.MinimizerSelector(ka3, 3), "MincodeSelector": align.MincodeSelector(ka3, 2),
             "SyncmerSelector": align.SyncmerSelector(alph, 3, 2, offset=(0, -1)),
@@ -3637,3 +3702,159 @@ def replay_order(case, ctx):
 SHARD_SOURCES.append(order_shards)
 RUNNERS["order"] = run_order
 REPLAYERS["order"] = replay_order
+
+
+# ---------------------------------------------------------------------------
+# derived: objects handed out by the library, fed into every other operation (second audit, dimension E)
+# ---------------------------------------------------------------------------
+def _fresh(x):
+    """an equal-valued object built directly: contiguous, writable, own buffer, base dtype kept"""
+    if isinstance(x, np.ndarray):
+        return np.array(x.tolist(), dtype=x.dtype).reshape(x.shape)
+    if isinstance(x, tuple):
+        return tuple(_fresh(e) for e in x)
+    if isinstance(x, dict):
+        return {k: _fresh(v) for k, v in x.items()}
+    return x
+
+
+def derived_cases(pal):
+    """-> list of (producer, consumer, derived object, fn(object) -> result, fresh twin)"""
+    import copy
+
+    import biotite.sequence as seq
+    import biotite.sequence.align as align
+
+    alph, mk = make_alphabet(2, pal)
+    out = []
+    base = ALIAS_REFS[0] + ALIAS_REFS[1] + (1, 1, 0, 1)
+    s0 = mk(base)
+    ka2, ka3, ka2s = align.KmerAlphabet(alph, 2), align.KmerAlphabet(alph, 3), align.KmerAlphabet(alph, 2, "101")
+    tables = {"KmerTable": align.KmerTable.from_sequences(2, [s0, mk(ALIAS_REFS[1])], ref_ids=[4, 9]),
+              "BucketKmerTable": align.BucketKmerTable.from_sequences(2, [s0, mk(ALIAS_REFS[1])], ref_ids=[4, 9], n_buckets=3)}
+    sels = {"MinimizerSelector": lambda p: align.MinimizerSelector(ka3, 3, p), "MincodeSelector": lambda p: align.MincodeSelector(ka3, 2, p),
+            "SyncmerSelector": lambda p: align.SyncmerSelector(alph, 3, 2, None, offset=(0, -1)),
+            "CachedSyncmerSelector": lambda p: align.CachedSyncmerSelector(alph, 3, 2, None, offset=(0, -1))}
+    # --- consumers of a k-mer array (codes of ka3 / ka2)
+    def kmer_consumers(ka, N):
+        cons = []
+        for cn, T, kw in (("KmerTable", align.KmerTable, {}), ("BucketKmerTable", align.BucketKmerTable, {"n_buckets": 3})):
+            cons.append((cn + ".from_kmers", lambda a, T=T, kw=kw: _entries(T.from_kmers(ka, [a], **kw), N)))
+            cons.append((cn + ".from_kmer_selection", lambda a, T=T, kw=kw: _entries(T.from_kmer_selection(ka, [np.arange(len(a), dtype=np.uint32)], [a], **kw), N)))
+            t = T.from_kmers(ka, [np.arange(N)], **kw)
+            cons.append((cn + ".count", lambda a, t=t: t.count(a)))
+            cons.append((cn + ".match_kmer_selection", lambda a, t=t: t.match_kmer_selection(np.arange(len(a), dtype=np.uint32), a)))
+        if N == 8:
+            for sn, mkr in sels.items():
+                cons.append((sn + ".select_from_kmers", lambda a, mkr=mkr: mkr(None).select_from_kmers(a)))
+            cons.append(("MinimizerSelector.select_from_kmers+random", lambda a: sels["MinimizerSelector"](align.RandomPermutation()).select_from_kmers(a)))
+            cons.append(("RandomPermutation.permute", lambda a: align.RandomPermutation().permute(a)))
+            cons.append(("FrequencyPermutation.permute", lambda a: perm_impl("freq_cyc", ka3, 2, 3, 8, pal).permute(a)))
+            cons.append(("KmerAlphabet.split", lambda a: ka3.split(a)))
+        return cons
+    km3 = ka3.create_kmers(s0.code)
+    km2 = ka2.create_kmers(s0.code)
+    kmer_sources = [("KmerAlphabet.create_kmers", km3, 8), ("KmerAlphabet.create_kmers+spaced", ka2s.create_kmers(s0.code), 4),
+                    ("KmerTable.get_kmers", tables["KmerTable"].get_kmers(), 4), ("BucketKmerTable.get_kmers", tables["BucketKmerTable"].get_kmers(), 4),
+                    ("ScoreThresholdRule.similar_kmers", make_rule(Env(2, pal, 3, None), "ident", 0, 1)[0].similar_kmers(ka3, 5), 8),
+                    ("KmerAlphabet.fuse(split)", ka3.fuse(ka3.split(km3)), 8),
+                    ("match_result_column", tables["KmerTable"].match(s0)[:, 2] % 8, 8)]
+    for sn, mkr in sels.items():
+        for pn, p in (("", None), ("+random", align.RandomPermutation())):
+            if pn and sn in ("SyncmerSelector", "CachedSyncmerSelector"):
+                continue
+            kmer_sources.append((sn + ".select" + pn, mkr(p).select(s0)[1], 8))
+    for pname, arr, N in kmer_sources:
+        for cname, fn in kmer_consumers(ka3 if N == 8 else ka2, N):
+            out.append((pname, cname, arr, fn))
+    # --- selector output (positions, k-mers) -> from_kmer_selection / match_kmer_selection (the documented work flow)
+    t3 = {"KmerTable": align.KmerTable.from_kmers(ka3, [km3]), "BucketKmerTable": align.BucketKmerTable.from_kmers(ka3, [km3], n_buckets=5)}
+    for sn, mkr in sels.items():
+        for pn, p in (("", None), ("+random", align.RandomPermutation()), ("+frequency", "freq")):
+            if pn and sn in ("SyncmerSelector", "CachedSyncmerSelector"):
+                continue
+            if p == "freq":
+                p = align.FrequencyPermutation.from_table(align.KmerTable.from_kmers(ka3, [km3]))
+            pair = tuple(mkr(p).select(s0))
+            for cn, T, kw in (("KmerTable", align.KmerTable, {}), ("BucketKmerTable", align.BucketKmerTable, {"n_buckets": 5})):
+                out.append((sn + ".select" + pn, cn + ".from_kmer_selection", pair,
+                            lambda pr, T=T, kw=kw: _entries(T.from_kmer_selection(ka3, [pr[0]], [pr[1]], **kw), 8)))
+                out.append((sn + ".select" + pn, cn + ".match_kmer_selection", pair, lambda pr, t=t3[cn]: t.match_kmer_selection(pr[0], pr[1])))
+    # --- {k-mer: table[k-mer]} -> from_positions (documented way to serialise a table)
+    for cn, t in tables.items():
+        d = {int(c): t[int(c)] for c in t.get_kmers()}
+        out.append((cn + ".__getitem__", "KmerTable.from_positions", d, lambda dd: _entries(align.KmerTable.from_positions(ka2, dd), 4)))
+        out.append((cn + ".count", "FrequencyPermutation.__init__", t.count(np.arange(4)), lambda c: align.FrequencyPermutation(ka2, c).permute(np.arange(4))))
+        out.append((cn + ".kmer_alphabet.spacing", "KmerAlphabet.__init__", align.KmerTable.from_sequences(2, [s0], spacing="1001").kmer_alphabet.spacing,
+                    lambda sp: snap_alphabet(align.KmerAlphabet(alph, 2, sp))))
+    # --- derived sequences -> every operation that takes a sequence
+    def seq_consumers():
+        cons = []
+        for cn, T, kw in (("KmerTable", align.KmerTable, {}), ("BucketKmerTable", align.BucketKmerTable, {"n_buckets": 3})):
+            cons.append((cn + ".from_sequences", lambda s, T=T, kw=kw: _entries(T.from_sequences(2, [s], **kw), 4)))
+            cons.append((cn + ".from_sequences+spaced", lambda s, T=T, kw=kw: _entries(T.from_sequences(2, [s], spacing="101", **kw), 4)))
+            cons.append((cn + ".match", lambda s, t=tables[cn]: t.match(s)))
+            cons.append((cn + ".match+mask", lambda s, t=tables[cn]: t.match(s, ignore_mask=np.arange(len(s)) % 3 == 1)))
+        for sn, mkr in sels.items():
+            cons.append((sn + ".select", lambda s, mkr=mkr: mkr(None).select(s)))
+        cons.append(("KmerAlphabet.create_kmers", lambda s: ka3.create_kmers(s.code)))
+        return cons
+    long = mk(base + base[::-1])
+    msk = np.array([i % 3 != 0 for i in range(len(long))])
+    seq_sources = [("Sequence.__getitem__(slice)", long[3:19]), ("Sequence.__getitem__(step)", long[::2]), ("Sequence.__getitem__(negative step)", long[::-1]),
+                   ("Sequence.__getitem__(mask)", long[msk]), ("Sequence.__getitem__(index array)", long[np.array([5, 4, 9, 9, 0, 17, 3, 2, 11, 12, 6])]),
+                   ("Sequence.reverse", long.reverse()), ("Sequence.copy", long.copy()), ("copy.deepcopy", copy.deepcopy(long)),
+                   ("Sequence.__add__", mk(base) + mk(base[::-1])), ("Sequence.code setter (view)", _seq_of(seq.GeneralSequence(alph), []))]
+    seq_sources[-1][1].code = long.code[1::2]
+    if isinstance(long, seq.NucleotideSequence):
+        seq_sources += [("NucleotideSequence.complement", long.complement()), ("NucleotideSequence.reverse.complement", long.reverse().complement())]
+    for pname, sq in seq_sources:
+        for cname, fn in seq_consumers():
+            out.append((pname, cname, sq, fn))
+    return out, mk
+
+
+def derived_shards(tier):
+    return [{"kind": "derived", "part": p, "parts": 3} for p in range(3)]
+
+
+def run_derived(shard, ctx):
+    cases, mk = derived_cases(ctx.seed)
+    for i, (producer, consumer, obj, fn) in enumerate(cases):
+        if i % shard["parts"] != shard["part"]:
+            continue
+        case = {"kind": "derived", "producer": producer, "consumer": consumer}
+        if not ctx.journal(case):
+            continue
+        if hasattr(obj, "code") and hasattr(obj, "alphabet"):
+            twin = mk(tuple(obj.code.tolist()))
+            shape = {"contiguous": bool(obj.code.flags.c_contiguous), "owns": bool(obj.code.flags.owndata), "dtype": str(obj.code.dtype)}
+        else:
+            twin = _fresh(obj)
+            first = obj[0] if isinstance(obj, tuple) else (next(iter(obj.values())) if isinstance(obj, dict) and obj else obj)
+            shape = {"contiguous": bool(getattr(first, "flags", None) and first.flags.c_contiguous),
+                     "owns": bool(getattr(first, "flags", None) and first.flags.owndata), "dtype": str(getattr(first, "dtype", ""))}
+        want = _res(lambda: fn(twin))
+        got = _res(lambda: fn(obj))
+        ctx.ev(1, 1 if not (shape["contiguous"] and shape["owns"]) else 0)
+        ctx.count("derived_view_or_strided" if not (shape["contiguous"] and shape["owns"]) else "derived_plain")
+        ctx.outcome((producer, consumer, str(want)[:300]))
+        if isinstance(want, str) and want.startswith("raised") and got == want:
+            ctx.count("either_derived_dtype_refused_like_twin")  # e.g. uint64 codes from fuse(): refused for both
+        elif isinstance(want, str) and want.startswith("raised"):
+            ctx.violation("%s|twin_%s|derived_from_%s" % (consumer, want.replace(" ", "_"), producer), "the directly built twin is refused: "
+                          "harness problem", case, "result", want)
+        elif got != want:
+            ctx.violation("%s|%s|derived_from_%s" % (consumer, got.replace(" ", "_") if isinstance(got, str) else "differs_from_directly_built_input", producer),
+                          "an object handed out by %s gives another result than an equal object built directly (%s)" % (producer, shape),
+                          case, want, got)
+    ctx.sample({"kind": "derived", "producer": "MinimizerSelector.select", "consumer": "KmerTable.from_kmer_selection"})
+
+
+def replay_derived(case, ctx):
+    run_derived({"kind": "derived", "part": 0, "parts": 1}, ctx)
+
+
+SHARD_SOURCES.append(derived_shards)
+RUNNERS["derived"] = run_derived
+REPLAYERS["derived"] = replay_derived
